@@ -68,7 +68,7 @@ _STATIC = {
     "C04": "certificates of the stable / complete / grounded solvers appear exactly when promised, are extensions, contain / omit the queried argument and consist of the framework's own argument objects",
     "C06": "on one solver object the same query with and without certificate, repeated and in different orders, gives the reference status each time; the complete solver gives one status for the aux_var, exp and hybrid encodings; the framework is unchanged by querying (stable, complete, grounded solvers)",
     "C07": "queries over every ordered pair of arguments are answered as disjunctions, with and without certificate (complete, stable, grounded solvers; cross-component case at 3 arguments)",
-    "C16": "clause (a): no SAT call of the stable / complete solvers carries an assumption on a variable above n_vars(), i.e. the DIMACS header written by BufferedSatSolver covers the instance; reply clause, final verdict only: the `match status` table at the end of the reply parser, re-extracted from the source and decided by z3 over all combinations of the facts it reads, reports a model only with `s SATISFIABLE` + a value line + the terminating 0 and UNSATISFIABLE only with its status line (counterexamples replayed through the real parser)",
+    "C16": "clause (a): no SAT call of the stable / complete solvers carries an assumption on a variable above n_vars(), i.e. the DIMACS header written by BufferedSatSolver covers the instance; reply clause, final verdict only: the `match status` table at the end of the reply parser, re-extracted from the source and decided by z3 over all combinations of the facts it reads, reports a model only with `s SATISFIABLE` + a value line + the terminating 0 and UNSATISFIABLE only with its status line, and no branch of the line classification leaves the rest of the reply unexamined (counterexamples replayed through the real parser)",
     "C17": "when the k-th SAT call (k symbolic) of a stable / complete query returns Unknown, or when the backend of a preferred / semi-stable / stage / ideal query is dead from the first call on, the query never returns a status or an extension (it aborts by the panic of unwrap_model, which is checked on the real function by its own harness)",
     "C18": "the stable and complete solvers make at most two SAT calls per solver instance (= per connected component)",
 }
